@@ -147,4 +147,38 @@ def judgeParse (c : Case) (o : ObsLine) : Verdict :=
   | "err" => .disagree "rejected" ((c.exp.getStr?).toOption.getD "") ("ERR " ++ o.code)
   | _ => .crash s!"{o.st}: {o.code}"
 
+/-- every ordered pair of nesting-capable symbols, as two plain nested statements and as two
+    nested-statement combinations: each must land under its own component whatever precedes it
+    (C02), and the order of the two must not matter (C18) -/
+def pairwiseNestedCases (tagp : String) : Array Case := Id.run do
+  let mut out : Array Case := #[]
+  let mut k := 0
+  for x in Sym.nestables do
+    for y in Sym.nestables do
+      if x.name = y.name then continue
+      let inner := fun (t : String) => Stmt.mk [Part.ann { sym := Sym.A } true (.leaf (t ++ " actor").toList), Part.ann { sym := Sym.I } true (.leaf (t ++ " aim").toList)]
+      let s1 := Stmt.mk [Part.ann { sym := Sym.D } true (.leaf (str "must")), Part.nested { sym := x } (inner "first"), Part.nested { sym := y } (inner "second")]
+      let c1 := parseCase s!"{tagp}-pw{k}" "pairwise-nested" s1
+      out := out.push { c1 with note := Json.mkObj [("kf", ("" : Json))] }
+      let comb := fun (z : Sym) (t : String) => Part.ncomb { sym := z } (.op .XOR (.one { sym := z } (inner (t ++ " left"))) (.one { sym := z } (inner (t ++ " right"))))
+      let s2 := Stmt.mk [Part.ann { sym := Sym.D } true (.leaf (str "must")), comb x "first", comb y "second"]
+      let c2 := parseCase s!"{tagp}-pc{k}" "pairwise-nested-combinations" s2
+      out := out.push { c2 with note := Json.mkObj [("kf", ("" : Json))] }
+      k := k + 1
+  pure out
+
+/-- every ordered pair of parenthesised component symbols -/
+def pairwiseSimpleCases (tagp : String) : Array Case := Id.run do
+  let mut out : Array Case := #[]
+  let mut k := 0
+  for x in Sym.simples do
+    for y in Sym.simples do
+      if x.name = y.name then continue
+      let s := Stmt.mk [Part.ann { sym := x } true (.comb .OR (.leaf (str "first one")) (.leaf (str "first two"))),
+                        Part.ann { sym := y } true (.leaf (str "second value"))]
+      let c := parseCase s!"{tagp}-ps{k}" "pairwise-components" s
+      out := out.push { c with note := Json.mkObj [("kf", ("" : Json))] }
+      k := k + 1
+  pure out
+
 end Drv
